@@ -44,6 +44,7 @@ Profile GetProfile(const std::string& name, bool thorough) {
     p.generator_restats_log = true;
   } else if (name == "C05") {
     p.pm_cmd_fail = 220; p.pm_cmd_signal = 60; p.w_edit = 4; p.pm_io_error = 0;
+    p.w_missing_source = 2; p.gen.features |= F_VALIDATION;
     p.gen.features &= ~F_REGEN;
   } else if (name == "C06") {
     p.pm_cmd_fail = 80; p.pm_interrupt = 80; p.pm_jobserver = 500; p.pm_io_error = 120; p.pm_load = 100; p.w_block_dir = 1;
@@ -1642,6 +1643,29 @@ struct Driver {
     }
   }
 
+  // A source file that a needed statement names as an explicit or implicit input is gone:
+  // ninja must say so before it starts anything - also when the file is only needed by a
+  // validation target - and the build after the file is back is an ordinary one.
+  void DoMissingSource() {
+    std::vector<std::string> cands;
+    for (auto& p : EditableSources()) {
+      bool named = false;
+      for (const Stmt& s : w.sc.stmts) if (s.alive) for (auto* v : {&s.ins, &s.imp_ins}) if (std::find(v->begin(), v->end(), p) != v->end()) named = true;
+      if (named && w.k.Exists(p)) cands.push_back(p);
+    }
+    if (cands.empty()) return;
+    std::string p = cands[H((uint32_t)cands.size())];
+    w.k.Remove(p);
+    Note("source " + p + " disappears");
+    w.missing_source = p;
+    DoBuild();
+    w.missing_source.clear();
+    if (dead) return;
+    w.k.WriteFile(p, w.SourceContent(p), true);
+    Note("source " + p + " is back");
+    rr.stats.n["missing_source_builds"]++;
+  }
+
   void DoDeleteOutput() {
     std::vector<std::string> outs = AllOutputs();
     if (outs.empty()) return;
@@ -1726,7 +1750,7 @@ struct Driver {
       if (i == 0 && H(8) != 0) { DoBuild(); continue; }
       int ws[] = {prof.w_build, prof.w_edit, prof.w_touch, prof.w_del_out, prof.w_change_cmd, prof.w_change_rsp,
                   prof.w_regen, prof.w_del_log, prof.w_del_depfile, prof.w_clean, prof.w_cleandead, prof.w_tool_ro,
-                  prof.w_dry, prof.w_manifest_edit, prof.w_edit_includes, prof.w_empty_source, prof.w_inflate_log, prof.w_include_churn, prof.w_block_dir, invalid_dyndep_run ? 6 : 0, prof.damage ? 8 : 0, prof.subset_then_touch ? 3 : 0, prof.w_restat_tool};
+                  prof.w_dry, prof.w_manifest_edit, prof.w_edit_includes, prof.w_empty_source, prof.w_inflate_log, prof.w_include_churn, prof.w_block_dir, invalid_dyndep_run ? 6 : 0, prof.damage ? 8 : 0, prof.subset_then_touch ? 3 : 0, prof.w_restat_tool, prof.w_missing_source};
       int total = 0;
       for (int x : ws) total += x;
       int c = (int)H((uint32_t)total), op = 0;
@@ -1755,6 +1779,7 @@ struct Driver {
         case 20: DoDamage(); break;
         case 21: DoSubsetThenTouch(); break;
         case 22: DoLogTool(); break;
+        case 23: DoMissingSource(); break;
       }
     }
     // histories end with a build so that every change is exercised
